@@ -303,7 +303,7 @@ class C10(Suite):
     case_ty = "case"
     obs_ty = "obs"
     kf = "kf"
-    kf_ids = {1: "F10a", 2: "F10b", 3: "F10c", 4: "F10d", 5: "F10e", 6: "F10f"}
+    kf_ids = {1: "F10a", 2: "F10b", 3: "F10c", 4: "F10d", 5: "F10e", 6: "F10f", 7: "F10g"}
     corr = ("update.evalUpdate/evalInsertData/evalDeleteData/evalDeleteWhere/evalModify/evalClear/evalDrop/evalAdd/"
             "evalMove/evalCopy/_graphAll/_graphOrDefault, evalutils._fillTemplate")
     quick_n = 900
@@ -449,7 +449,7 @@ class C10(Suite):
                 if v is not None and str(var) in VAR_ID:
                     mu.append([VAR_ID[str(var)], tid(v, extra)])
             rows.append(sorted(mu))
-        return sorted(rows)
+        return rows  # in the engine's order: the partial effect before a failure depends on it
 
     def run_impl(self, case):
         union = case["union"]
